@@ -59,9 +59,16 @@ fn fused_ok(p: &Prog) -> Result<bool, String> {
 /// labelling alternatives with it, and so the ORDER in which the clauses' answers interleave.)
 pub fn fd_with_disjunction(p: &Prog) -> bool {
     let l = p.line();
-    let fd = ["infd", "plusfd", "minusfd", "timesfd", "ltefd", "ltfd", "diseqfd", "distinctfd"].iter().any(|k| l.contains(k));
-    let dj = ["conde", "disj", "conda", "condu", "anyo"].iter().any(|k| l.contains(k));
-    fd && dj
+    let toks: Vec<&str> = l.split_whitespace().collect();
+    let fd = ["infd", "plusfd", "minusfd", "timesfd", "ltefd", "ltfd", "diseqfd", "distinctfd"];
+    if !toks.iter().any(|t| fd.contains(t)) {
+        return false;
+    }
+    // the choice point is an explicit disjunction, or the labelling itself as soon as two propagators can run in
+    // either order (witness without a disjunction: found by the thorough tier of C16, see the corpus)
+    let propagators: usize = toks.iter().map(|t| if *t == "ltfd" { 2 } else if fd.contains(t) && *t != "infd" { 1 } else { 0 }).sum();
+    let dj = ["conde", "disj", "conda", "condu", "anyo"].iter().any(|k| toks.contains(k));
+    dj || propagators >= 2
 }
 
 fn same_multiset(a: &str, b: &str) -> bool {
@@ -163,6 +170,9 @@ fn corpus() -> Vec<&'static str> {
         // D21 (known finding): finite-domain propagation under a disjunction — the answers come in a hash-order
         // dependent ORDER (found by the thorough tier of C04 as a model/implementation sequence difference)
         "prog 3 3 0 - infd v2 V 5 0 -4 -1 0 3 plusfd v2 v1 v0 infd v0 I -3 2 infd v1 I 0 3 conde 2 2 plusfd v0 v0 v2 ltefd v1 v1 1 timesfd v1 v1 v1",
+        // D21 without an explicit disjunction: two answer orders over 12 fresh processes (6/6); the labelling of v0 and v1 is
+        // the choice point (found by the thorough tier of C16 as a model/implementation sequence difference)
+        "prog 4 2 0 - infd v3 V 5 1 -4 4 -1 -1 infd v2 I -4 4 infd v0 I -3 1 distinctfd cons v2 cons v0 cons v1 cons i2 nil infd v1 I -1 4 plusfd v0 v1 v2 distinctfd cons v3 cons i-1 nil",
         // a simplified disequality subsumes a stored one in the middle of a pass; a third one is violated (C09-b)
         "prog 6 6 0 - neq cons v0 cons v1 nil cons i7 cons i2 nil neq cons v1 cons v2 nil cons i2 cons i3 nil neq v3 v4 eq cons v3 cons v0 nil cons v4 cons i7 nil",
     ]
